@@ -45,19 +45,21 @@ type sigView struct {
 type filt struct{ sig, byteIdx, mask, length, off int }
 
 type obs struct {
-	editPanic     string // "<op kind>[-shared-enum]" when an edit operation panicked
-	editPanicMsg  string
-	nilEntries    int    // nil pointers found in the slices returned by Decode
-	orderBrokenBy string // first op after which a signal's byte order differed from the message's
-	brokenBy      string // first edit after which the layout was no longer well-formed ("" = never)
-	msgBE         bool   // Message.ByteOrder() == big endian
-	view          []sigView
-	filters       []filt
-	decodes       [][][2]uint64 // per payload: (id, raw)
-	panicked      string
+	orderReattached bool
+	editPanic       string // "<op kind>[-shared-enum]" when an edit operation panicked
+	editPanicMsg    string
+	nilEntries      int    // nil pointers found in the slices returned by Decode
+	orderBrokenBy   string // first op after which a signal's byte order differed from the message's
+	brokenBy        string // first edit after which the layout was no longer well-formed ("" = never)
+	msgBE           bool   // Message.ByteOrder() == big endian
+	view            []sigView
+	filters         []filt
+	decodes         [][][2]uint64 // per payload: (id, raw)
+	panicked        string
 }
 
 type world struct {
+	msg2    *acmelib.Message // a second message, only for the re-attachment scenario (D20)
 	msg     *acmelib.Message
 	sigs    []acmelib.Signal // by harness number
 	ids     map[acmelib.EntityID]int
@@ -70,7 +72,8 @@ type world struct {
 	brokenBy string
 	// first operation after which some signal of the layout did not carry the byte order of the
 	// message (checked after every operation, not only at the end)
-	orderBrokenBy string
+	orderBrokenBy   string
+	orderReattached bool // ... and that signal's ParentMessage is another message (D20 re-attachment)
 	// an edit operation panicked: kind of the op (+ "-shared-enum"), panic text; the history stops there
 	editPanic    string
 	editPanicMsg string
@@ -102,6 +105,7 @@ func observe(w *world, payloads [][]byte) (o obs) {
 	sl := w.msg.SignalLayout()
 	o.brokenBy = w.brokenBy
 	o.orderBrokenBy = w.orderBrokenBy
+	o.orderReattached = w.orderReattached
 	o.editPanic, o.editPanicMsg = w.editPanic, w.editPanicMsg
 	o.msgBE = w.msg.ByteOrder() == acmelib.MessageByteOrderBigEndian
 	for _, s := range w.msg.Signals() { // layout order
@@ -245,6 +249,9 @@ func checkProps(o obs, payloads [][]byte, nbits int) []failure {
 	}
 	// the byte order of the message is the byte order of every signal in its layout (the spec
 	// below reads the payload in the message's byte order)
+	if o.orderBrokenBy != "" && o.orderReattached {
+		return []failure{{"c02-byte-order-flipped-by-reattachment", "a signal of the layout was accepted by a second message and took its byte order: " + o.orderBrokenBy}}
+	}
 	if o.orderBrokenBy != "" {
 		return []failure{{"c02-byte-order-not-propagated", "a signal of the layout does not carry the byte order of the message after " + o.orderBrokenBy}}
 	}
@@ -490,6 +497,12 @@ func applyOp(w *world, op string) {
 		for _, v := range currentView(w) {
 			if v.be != mbe {
 				w.orderBrokenBy = fmt.Sprintf("%s (message big-endian=%v, signal %d big-endian=%v)", strings.Join(f, " "), mbe, v.id, v.be)
+				// known shape, by value: the signal has been accepted by another message (D20), its
+				// ParentMessage is no longer the message whose layout still holds it
+				if sg := w.sigs[v.id]; sg != nil && sg.ParentMessage() != w.msg {
+					w.orderReattached = true
+				}
+				w.stopped = true
 				break
 			}
 		}
@@ -507,8 +520,8 @@ func applyOp(w *world, op string) {
 //	S op args ; pre ; B msgBE bits n (id start size be kind)* F m (sig byte mask len off)*
 func traceStep(w *world, f []string, pre string) {
 	switch f[0] {
-	case "NS", "NE", "NX", "EN":
-		return // creation of detached entities
+	case "NS", "NE", "NX", "EN", "M2", "BO2", "AP2":
+		return // creation of detached entities; operations on the second message (outside the one-message model)
 	case "M":
 		fmt.Fprintf(w.trace, "H %d\n", 8*w.msg.SizeByte())
 		return
@@ -657,6 +670,21 @@ func doOp(w *world, f []string) {
 			w.msg.CompactSignals()
 		case "SZ":
 			_ = w.msg.UpdateSizeByte(at(f, 1))
+		case "M2":
+			w.msg2 = acmelib.NewMessage("m2", 2, at(f, 1))
+		case "BO2":
+			if w.msg2 != nil {
+				if at(f, 1) == 1 {
+					w.msg2.SetByteOrder(acmelib.MessageByteOrderBigEndian)
+				} else {
+					w.msg2.SetByteOrder(acmelib.MessageByteOrderLittleEndian)
+				}
+			}
+		case "AP2":
+			// AppendSignal into the SECOND message, whether or not the signal is placed in the first
+			if s := getSig(at(f, 1)); s != nil && w.msg2 != nil {
+				_ = w.msg2.AppendSignal(s)
+			}
 		}
 	}
 }
@@ -789,7 +817,7 @@ func (rc *recorder) record(cat string, o obs, payloads [][]byte, nbits int, ops 
 		sig := f.class
 		sops := ops
 		detail := f.detail
-		if strings.HasPrefix(f.class, "c02-edit-op-panic-") || f.class == "c02-harness-panic" {
+		if strings.HasPrefix(f.class, "c02-edit-op-panic-") || f.class == "c02-harness-panic" || f.class == "c02-byte-order-flipped-by-reattachment" {
 			sops = shrink(ops, f.class, payloadsFor)
 			so, sp, snb := safeRun(sops, payloadsFor)
 			for _, g := range checkProps(so, sp, snb) {
@@ -1040,6 +1068,12 @@ func genHistory(r *rng) (ops []string) {
 	}
 	if r.below(3) == 0 {
 		do(fmt.Sprintf("BO %d", r.below(2)))
+	}
+	if r.below(25) == 0 && !dead {
+		// D20: a signal placed here is also appended to a second message of the other byte order
+		do(fmt.Sprintf("M2 %d", 8))
+		do(fmt.Sprintf("BO2 %d", 1-b2i(w.msg.ByteOrder() == acmelib.MessageByteOrderBigEndian)))
+		do(fmt.Sprintf("AP2 %d", r.below(nsig)))
 	}
 	if r.below(5) == 0 && !dead {
 		// a signal leaves the message, the message changes its byte order, the signal comes back:
